@@ -66,7 +66,7 @@ def run_impl(c, memo=None):
     import cellpylib as cpl
     ca = make_ca(c)
     snapshot = ca.tobytes()
-    rule = Rule(c["rule"], c.get("scale", 1))
+    rule = Rule(c["rule"], c.get("scale", 1), clobber=bool(c.get("clobber")))
     pred = None
     if "T" in c:
         ts = c["T"]
